@@ -418,7 +418,8 @@ func (ee *explainer) explainSeqMappings(mm []mapping) {
 		}
 
 		if rangeLen > 2 {
-			fmt.Fprintf(ee.w, "%s-%s -> %s-%s",
+			// The spaces keep numeric glyph names apart from the hyphen.
+			fmt.Fprintf(ee.w, "%s - %s -> %s - %s",
 				ee.names[mm[0].from[0]],
 				ee.names[mm[rangeLen-1].from[0]],
 				ee.names[mm[0].to[0]],
